@@ -326,7 +326,7 @@ def _objs(c, names):
 
 
 # ---- the functions translated from the source (Gen/PyFuncs.lean) are driven with the same inputs ---------------------------
-PY_TWIN = {'rot1x': 'pyrot1', 'mpt': 'pympt', 'ptdb': 'pyptdb', 'rot1': 'pyrot1', 'loop': 'pyloop', 'loop.pt': 'pyloop.pt'}
+PY_TWIN = {'split': 'pysplit', 'rotpt': 'pyrotpt', 'rot1x': 'pyrot1', 'mpt': 'pympt', 'ptdb': 'pyptdb', 'rot1': 'pyrot1', 'loop': 'pyloop', 'loop.pt': 'pyloop.pt'}
 
 
 def source_derived_stream(res, proof, name, ops, impl):
